@@ -825,7 +825,8 @@ func (t *Table) Select(option ...TableSelectOption) (*Table, error) {
 		as = o.AS
 	}
 	dOption := DestinationSelectOption{ID: id, AS: as, VRF: vrf, adj: adj, Best: best, MultiPath: mp}
-	r := NewTable(nil, t.Family)
+	// the result table reports insert collisions like any other table: it needs the logger
+	r := NewTable(t.logger, t.Family)
 
 	if len(prefixes) != 0 {
 		switch t.Family {
